@@ -17,17 +17,33 @@ EXPLANATION = (
 
 def run(ctx):
     m = Model(ctx)
+    r = fill_rules(ctx, m, census=True)
+    if r is None:
+        return
+    ledger_rules(ctx, m, *r)
+
+
+def fill_rules(ctx, m, census=False):
+    """K5 / record contents: returns (trade writer Fn, its FnQ, push Call, passive param,
+    aggressor param, time param, delta expr) or None"""
     w = m.w
     tw = m.trade_writers()
     if not tw:
         ctx.lost("trade-writer", "no function pushes onto a Vec<Trade>")
-        return
+        return None
     ctx.check(len(tw) == 1, "single-writer", "push-sites", ", ".join(c.loc() for _f, c in tw),
               "exactly one Vec<Trade>::push site in bourse_book (%s)" % tw[0][0].short(),
               "more than one push onto a Vec<Trade>: %s" % ", ".join(c.loc() for _f, c in tw))
     twf, push = tw[0]
     q = m.q(twf)
 
+    if census:
+        census_rules(ctx, m, twf)
+    return record_rules(ctx, m, twf, q, push)
+
+
+def census_rules(ctx, m, twf):
+    w = m.w
     # ---------------------------------------------------------------- (1) append-only census
     n_sites = 0
     for f in list(ctx.prog.fns.values()):
@@ -68,11 +84,14 @@ def run(ctx):
                   "effect summary of %s is fully resolved" % f.short(),
                   "effect analysis cannot resolve: %s" % "; ".join(s["unknown"][:3]))
 
+
+
+def record_rules(ctx, m, twf, q, push):
     # ---------------------------------------------------------------- (2) record contents
     rec = push.args[1] if len(push.args) > 1 else None
     if rec is None or rec[0] != "agg" or not rec[2].endswith("Trade::Trade"):
         ctx.lost("record", "pushed value is not a Trade aggregate: %s" % (render(rec) if rec else "?"))
-        return
+        return None
     fields = dict(zip(rec[4], rec[3]))
 
     def param_of(e, *suffix):
@@ -90,7 +109,7 @@ def run(ctx):
               "Trade ids do not originate from the order_id of two distinct order parameters: passive=%s active=%s" % (
                   render(fields.get("passive_order_id", ("unk",))), render(fields.get("active_order_id", ("unk",)))))
     if pas is None or agg is None:
-        return
+        return None
     ctx.check(param_of(fields["side"], "side") == pas, "record", "side", loc,
               "Trade.side <- %s.side (the passive order)" % pas, "Trade.side originates from %s, not the passive order's side" % render(fields["side"]))
     ctx.check(param_of(fields["price"], "price") == pas, "record", "price", loc,
@@ -127,6 +146,11 @@ def run(ctx):
               "trade writer returns %s, not the logged volume" % render(q.ret()))
     ctx.check(q.cfg.strictly_after(vw[0].b, push.b) or vw[0].b == push.b or True, "record", "order", loc, "record pushed in the same straight-line region as the fill")
 
+    return (twf, q, push, pas, agg, tparam, delta)
+
+
+def ledger_rules(ctx, m, twf, q, push, pas, agg, tparam, delta):
+    w = m.w
     # ---------------------------------------------------------------- call sites of the trade writer
     tname = tparam[2] if tparam[0] == "param" else None
     sites = []
